@@ -518,6 +518,23 @@ async def probe_requests(api, world, scn, n, tag="probe"):
     """C05's behavioural arbiter: n fresh requests to fresh origins, concurrently
     issued one after another must all obtain a connection (pool timeout small)."""
     res = []
+    # first the origins the scenario used: whatever connection is still pooled for them
+    # must be reusable (or be replaced), then fresh origins: full capacity is available
+    reuse = []
+    for i, url in enumerate(scn.get("probe_reuse", ())):
+        tok = f"reuse{i}".encode()
+        world.cur_token[world.ctx_name()] = tok
+        try:
+            r = await api.request("GET", url, [(b"x-token", tok)], None,
+                                  {"timeout": {"pool": 5.0, "connect": 5.0, "read": 5.0,
+                                               "write": 5.0}})
+            reuse.append(r.status)
+        except Exception as e:
+            reuse.append(type(e).__name__)
+            world.reuse_msgs = getattr(world, "reuse_msgs", []) + [str(e)]
+    if reuse:
+        world.log("probe_reuse", tuple(reuse))
+    world.reuse_result = reuse
     for i in range(n):
         tok = f"{tag}{i}".encode()
         world.cur_token[world.ctx_name()] = tok
